@@ -38,7 +38,8 @@ def _writeSetFLHeader(nrho, drho, nr, dr, cutoff, eampots, comments, out):
   #Line 1-3: comments
   workout = StringIO()
 
-  newcomments = list(comments)
+  # each comment is one line of the file (also a string that ends in, or holds, a line break)
+  newcomments = [u" ".join(c.splitlines()) for c in comments]
   newcomments.extend(['', '', ''])
   newcomments = newcomments[:3]
 
